@@ -1,6 +1,7 @@
 package h
 
 import (
+	adaptertypes "github.com/noble-assets/orbiter/v2/types/component/adapter"
 	"cosmossdk.io/math"
 	codectypes "github.com/cosmos/cosmos-sdk/codec/types"
 	sdk "github.com/cosmos/cosmos-sdk/types"
@@ -119,7 +120,7 @@ func H_C15_parse() {
 		acts = append(acts, a)
 	}
 	// attributes whose type is known to the codec but NOT registered for the position they are in
-	wrong := verif.Choose("wrong-attribute-type", 5)
+	wrong := verif.Choose("wrong-attribute-type", 7)
 	wrongAct := func() *core.Action {
 		a, err := core.NewAction(core.ACTION_SWAP, &fwdtypes.InternalAttributes{Recipient: user1.String()})
 		must(err)
@@ -134,6 +135,16 @@ func H_C15_parse() {
 		acts = []*core.Action{wrongAct()}
 	case 4:
 		any, err := codectypes.NewAnyWithValue(&actiontypes.FeeAttributes{})
+		must(err)
+		f = &core.Forwarding{ProtocolId: f.ProtocolId, Attributes: any, PassthroughPayload: f.PassthroughPayload}
+	case 5:
+		// a type the codec knows for ANOTHER interface of the same module (a transaction message) as action attributes
+		a, err := core.NewAction(core.ACTION_FEE, &adaptertypes.MsgUpdateParams{Signer: "someone"})
+		must(err)
+		acts = []*core.Action{a}
+	case 6:
+		// ... and as forwarding attributes
+		any, err := codectypes.NewAnyWithValue(&adaptertypes.MsgUpdateParams{Signer: "someone"})
 		must(err)
 		f = &core.Forwarding{ProtocolId: f.ProtocolId, Attributes: any, PassthroughPayload: f.PassthroughPayload}
 	}
